@@ -184,6 +184,138 @@ func c03(c *core.Ctx) {
 		c.EndRule()
 	}
 
+	// ---------------------------------------------------------------- R6
+	if c.Rule("R6", "no parked frame is lost: every frame kind that the header peek can park in the stream's peek slot is handled by the consumer of that slot", 1) {
+		kinds := frameKinds(p)
+		n := 0
+		for _, nt := range streamTypes(p, "ClientStream", "RecvMsg") {
+			if pkgSuffixOf(nt) != "inprocgrpc" {
+				continue
+			}
+			tn := nt.Obj().Name()
+			// handled kinds: equality tests on <recv>.last.kind() in the receive family
+			handled := map[int64]bool{}
+			for _, f := range methodFamily(p, nt, "RecvMsg") {
+				for _, ef := range core.EdgeFactsOf(f) {
+					fc := ef.Fact
+					kc, isCall := fc.X.(*ssa.Call)
+					k, isC := core.ConstInt(fc.Y)
+					if fc.Op != token.EQL || !isCall || !isC || core.InfoOf(&kc.Call).Name != "kind" {
+						continue
+					}
+					if core.OriginIs(kc.Call.Args[0], func(o ssa.Value) bool {
+						u, ok := o.(*ssa.UnOp)
+						if !ok {
+							return false
+						}
+						_, fld, ok2 := core.FieldOf(u.X)
+						if ok2 && fld == "last" {
+							return true
+						}
+						if inner, ok3 := u.X.(*ssa.UnOp); ok3 {
+							_, fld2, ok4 := core.FieldOf(inner)
+							return ok4 && fld2 == "last"
+						}
+						return false
+					}) {
+						handled[k] = true
+					}
+				}
+			}
+			// parking stores outside the receive family's own re-park of an error frame
+			for i := 0; i < nt.NumMethods(); i++ {
+				fn := p.SSA.FuncValue(nt.Method(i))
+				if fn == nil || fn.Blocks == nil {
+					continue
+				}
+				core.Instrs(fn, func(in ssa.Instruction) {
+					st, ok := in.(*ssa.Store)
+					if !ok || core.IsNilConst(st.Val) {
+						return
+					}
+					base, fld, isF := core.FieldOf(st.Addr)
+					if !isF || fld != "last" || core.NamedOf(base.Type()) != tn {
+						return
+					}
+					// the frame parked: an Alloc holding a received frame; find kind() calls on loads of it
+					fr, isAl := st.Val.(*ssa.Alloc)
+					if !isAl || core.NamedOf(fr.Type()) != "frame" {
+						return
+					}
+					if len(core.StoresTo(fr)) == 0 {
+						return // a literal built in place (only field stores): it has exactly the kind of its one field
+					}
+					if len(core.StoresTo(fr)) > 0 {
+						// a literal built here (e.g. the synthetic error frame) has exactly the kind of its one field
+						lit := true
+						for _, s2 := range core.StoresTo(fr) {
+							if _, isEx := s2.Val.(*ssa.Extract); isEx {
+								lit = false
+							}
+							if _, isU := s2.Val.(*ssa.UnOp); isU {
+								lit = false
+							}
+						}
+						if lit {
+							return
+						}
+					}
+					n++
+					key := core.FuncName(fn) + ":parked-kinds-handled"
+					possible := map[string]int64{}
+					for name, k := range kinds {
+						possible[name] = k
+					}
+					isKindOfFrame := func(v ssa.Value) bool {
+						kc, ok := v.(*ssa.Call)
+						if !ok || core.InfoOf(&kc.Call).Name != "kind" {
+							return false
+						}
+						return core.OriginIs(kc.Call.Args[0], func(o ssa.Value) bool {
+							u, ok := o.(*ssa.UnOp)
+							return ok && u.X == ssa.Value(fr)
+						}) || core.OriginIs(kc.Call.Args[0], func(o ssa.Value) bool {
+							// value stored into fr
+							for _, s2 := range core.StoresTo(fr) {
+								if s2.Val == o {
+									return true
+								}
+							}
+							return false
+						})
+					}
+					for _, ef := range core.DominatingFacts(st) {
+						fc := ef.Fact
+						k, isC := core.ConstInt(fc.Y)
+						if !isC || !isKindOfFrame(fc.X) {
+							continue
+						}
+						for name, kk := range possible {
+							if fc.Op == token.NEQ && kk == k {
+								delete(possible, name)
+							}
+							if fc.Op == token.EQL && kk != k {
+								delete(possible, name)
+							}
+						}
+					}
+					var lost []string
+					for name, kk := range possible {
+						if !handled[kk] {
+							lost = append(lost, name)
+						}
+					}
+					sort.Strings(lost)
+					c.Check(len(lost) == 0, key, st.Pos(), fmt.Sprintf("kinds that can be parked %v are all handled by the peek-slot consumer", keysOfI(possible)), fmt.Sprintf("a frame of kind %v can be parked in the peek slot but the consumer of the slot does not handle that kind: it is silently lost (e.g. trailers read by Header() never reach Trailer() or the call options)", lost))
+				})
+			}
+		}
+		if n == 0 {
+			c.Fail("inprocgrpc:peek-slot", token.NoPos, "ANCHOR-MISSING: no parking of a received frame found in the in-process client stream")
+		}
+		c.EndRule()
+	}
+
 	// ---------------------------------------------------------------- R4
 	if c.Rule("R4", "binary metadata uses one codec on every wire path: each MD↔wire converter base64-codes the values of keys with the -bin suffix, like its counterpart", 4) {
 		c03BinCodec(c)
@@ -802,4 +934,13 @@ func c03Reserved(c *core.Ctx) {
 		}
 		c.Check(bad == "", key, fn.Pos(), "a pair is withheld only if its key is in the reserved table", bad)
 	}
+}
+
+func keysOfI(m map[string]int64) []string {
+	var out []string
+	for k := range m {
+		out = append(out, k)
+	}
+	sort.Strings(out)
+	return out
 }
